@@ -144,6 +144,7 @@ struct ExpSpec {
     int scope, func, count, how;     // how: 0 expectOneCall, 1 expectNCalls, 2 expectNoCall
     int val[3]; int obj; bool hasRet; bool unmod[2]; std::vector<uint8_t> out[2]; VOut outv[2];
     bool dead;                       // declared while the scope was disabled: not an expectation at all
+    bool bare;                       // declared without any parameter, output, object or ignoreOtherParameters although the function has parameters
     int consumed;                    // model state
 };
 enum StepKind { S_IN, S_OUT, S_OBJ };
@@ -220,6 +221,7 @@ struct Model {
     std::string class_key(const ExpSpec& e) const {
         const FuncSpec& f = fs[e.func];
         std::string k = kFunc[e.func];
+        if (e.bare) return k + "#bare";
         if (f.objects) k += sfmt("@%d", e.obj);
         for (int i = 0; i < f.nin; i++) k += "," + val_key(exp_val(e, i));
         return k;
@@ -228,26 +230,36 @@ struct Model {
     int out_index(const FuncSpec& f, const std::string& n) const { for (int i = 0; i < f.nout; i++) if (n == kOut[i]) return i; return -1; }
     bool seen(const CallSpec& c, int kind, const char* name) const { for (auto& s : c.steps) if (s.kind == kind && (kind == S_OBJ || s.name == name)) return true; return false; }
 
-    bool missing_params(const CallSpec& c) const {
-        const FuncSpec& f = fs[c.func];
+    bool ign(const ExpSpec& e) const { return fs[e.func].ignoreOther && !e.bare; }
+    bool needs_object(const ExpSpec& e) const { return fs[e.func].objects && !e.bare; }
+    bool lacks_param(const ExpSpec& e, const CallSpec& c) const {
+        if (e.bare) return false;
+        const FuncSpec& f = fs[e.func];
         for (int i = 0; i < f.nin; i++) if (!seen(c, S_IN, kIn[i])) return true;
         for (int i = 0; i < f.nout; i++) if (!seen(c, S_OUT, kOut[i])) return true;
         return false;
     }
-    // everything the signature asks for was passed (ignore-other functions: possibly more)
-    bool complete(const CallSpec& c) const { return !missing_params(c) && (!fs[c.func].objects || seen(c, S_OBJ, "")); }
+    // everything this expectation asks for was passed (ignore-other expectations: possibly more)
+    bool complete_for(const ExpSpec& e, const CallSpec& c) const { return !lacks_param(e, c) && (!needs_object(e) || seen(c, S_OBJ, "")); }
     bool agrees(const ExpSpec& e, const Step& s) const {
         const FuncSpec& f = fs[e.func];
-        if (s.kind == S_IN) { int i = in_index(f, s.name); if (i < 0) return f.ignoreOther; return value_equal(exp_val(e, i), s.v); }
-        if (s.kind == S_OUT) { int i = out_index(f, s.name); if (i < 0) return f.ignoreOther; return f.okind[i] == s.okind; }
-        return !f.objects || s.obj == e.obj;
+        if (s.kind == S_IN) { int i = e.bare ? -1 : in_index(f, s.name); if (i < 0) return ign(e); return value_equal(exp_val(e, i), s.v); }
+        if (s.kind == S_OUT) { int i = e.bare ? -1 : out_index(f, s.name); if (i < 0) return ign(e); return f.okind[i] == s.okind; }
+        return !needs_object(e) || s.obj == e.obj;
+    }
+    // some expectation on the function (open or not) lists a parameter of that name: "unexpected value", else "unexpected name"
+    bool listed(const CallSpec& c, const Step& s) const {
+        const FuncSpec& f = fs[c.func];
+        if ((s.kind == S_IN ? in_index(f, s.name) : out_index(f, s.name)) < 0) return false;
+        for (auto& e : *ex) if (live(e, c.scope, c.func) && e.how != 2 && !e.bare) return true;
+        return false;
     }
     bool live(const ExpSpec& e, int scope, int func) const { return !e.dead && e.scope == scope && e.func == func; }
     // the call is exactly a call of a class whose expectations were all used up already (a surplus call)
     bool surplus(const CallSpec& c) const {
-        if (c.unknown || !complete(c)) return false;
+        if (c.unknown) return false;
         for (auto& e : *ex) {
-            if (!live(e, c.scope, c.func) || e.count == 0 || e.consumed < e.count) continue;
+            if (!live(e, c.scope, c.func) || e.count == 0 || e.consumed < e.count || !complete_for(e, c)) continue;
             bool all = true;
             for (auto& s : c.steps) if (!agrees(e, s)) all = false;
             if (all) return true;
@@ -291,13 +303,13 @@ struct Model {
         cons = keep;
         const FuncSpec& f = fs[c.func];
         if (!cons.empty()) {
-            bool listed = (s.kind == S_IN && in_index(f, s.name) >= 0) || (s.kind == S_OUT && out_index(f, s.name) >= 0) || (s.kind == S_OBJ && f.objects);
-            if (listed) for (int i : cons) flagged[(size_t)i] = 1;
+            bool islisted = (s.kind == S_IN && in_index(f, s.name) >= 0) || (s.kind == S_OUT && out_index(f, s.name) >= 0) || (s.kind == S_OBJ && f.objects);
+            if (islisted) for (int i : cons) flagged[(size_t)i] = 1;
             return false;
         }
         std::string fn = scoped(c.scope, fname(c));
-        if (s.kind == S_IN) due.push_back(in_index(f, s.name) < 0 ? a_name_in(fn, s.name) : a_value(fn, s.name));
-        else if (s.kind == S_OUT) due.push_back(out_index(f, s.name) < 0 ? a_name_out(fn, s.name) : a_type_out(fn, s.name, s.okind));
+        if (s.kind == S_IN) due.push_back(!listed(c, s) ? a_name_in(fn, s.name) : a_value(fn, s.name));
+        else if (s.kind == S_OUT) due.push_back(!listed(c, s) ? a_name_out(fn, s.name) : a_type_out(fn, s.name, s.okind));
         else due.push_back(a_object(fn));
         // A.1 rule 2 / A.5: a surplus call while another class of the function is open may also be called "additional call"
         if (surplus(c)) due.push_back(a_additional(fn, fulfilled_for(c.scope, c.func) + 1));
@@ -307,14 +319,17 @@ struct Model {
     void finish(const CallSpec& c, AllowSet& deferred) {
         if (ignored) return;
         std::string fn = scoped(c.scope, fname(c));
-        if (complete(c)) {
-            matched = cons[0]; (*ex)[matched].consumed++; seq[c.scope].push_back(class_key((*ex)[matched]));
+        for (int i : cons) if (complete_for((*ex)[(size_t)i], c)) { matched = i; break; }      // first declared open expectation the call is a complete call of
+        if (matched >= 0) {
+            (*ex)[(size_t)matched].consumed++; seq[c.scope].push_back(class_key((*ex)[(size_t)matched]));
             for (size_t i = 0; i < flagged.size(); i++) if (flagged[i]) stale[i] = 1;
             for (int i : cons) stale[(size_t)i] = 0;
             return;
         }
-        if (missing_params(c)) deferred.push_back(a_missing_param(fn));
-        if (fs[c.func].objects && !seen(c, S_OBJ, "")) deferred.push_back(a_missing_object(fn));
+        bool mp = false, mo = false;
+        for (int i : cons) { const ExpSpec& e = (*ex)[(size_t)i]; if (lacks_param(e, c)) mp = true; if (needs_object(e) && !seen(c, S_OBJ, "")) mo = true; }
+        if (mp) deferred.push_back(a_missing_param(fn));
+        if (mo) deferred.push_back(a_missing_object(fn));
     }
     bool any_pending(AllowSet& due) const {
         bool any = false;
@@ -412,6 +427,7 @@ Val actual_of(const ParamSpec& ps, int idx, int variant, unsigned sel) {
 CallSpec call_from(const Case& cs, int ei) {
     const ExpSpec& e = cs.ex[(size_t)ei]; const FuncSpec& f = cs.fs[e.func];
     CallSpec c; c.scope = e.scope; c.func = e.func; c.unknown = false; c.fetch = 0; c.probe = false; c.origin = ei;
+    if (e.bare) return c;
     for (int i = 0; i < f.nin; i++) c.steps.push_back(in_step(kIn[i], actual_of(f.in[i], e.val[i], 0, 0), e.val[i]));
     for (int i = 0; i < f.nout; i++) c.steps.push_back(out_step(kOut[i], f.okind[i]));
     if (f.objects) c.steps.push_back(obj_step(e.obj));
@@ -458,6 +474,7 @@ void decode(Reader& r, Case& cs) {
         e.unmod[0] = ((b3 >> 1) & 7) == 7 && !cs.fs[e.func].okind[0]; e.unmod[1] = ((b3 >> 4) & 7) == 7 && !cs.fs[e.func].okind[1];
         for (int k = 0; k < 2; k++) { for (size_t j = 0; j < cs.fs[e.func].osz[k]; j++) e.out[k].push_back((uint8_t)(0x10 * (i + 1) + 8 * k + j)); e.outv[k].content = 0x1000 * (i + 1) + k; }
         e.dead = false; e.consumed = 0;
+        { const FuncSpec& ff = cs.fs[e.func]; unsigned bsel = (b3 >> 1) & 7; e.bare = (bsel == 5 || bsel == 6) && e.how != 2 && ff.nin + ff.nout >= 1; }
         cs.ex.push_back(e);
     }
     // actual calls: expansion in declaration order
@@ -586,7 +603,8 @@ std::string render(const Case& cs) {
     for (auto& e : cs.ex) {
         const FuncSpec& f = cs.fs[e.func];
         s += sfmt(" E:%s x%d%s%s", scoped(e.scope, kFunc[e.func]).c_str(), e.count, e.how == 2 ? "(noCall)" : "", e.dead ? "[declared-while-disabled]" : "");
-        if (e.how != 2) {
+        if (e.bare) s += sfmt("(bare)%s", e.hasRet ? sfmt("->%s", kRetName[f.ret]).c_str() : "");
+        else if (e.how != 2) {
             s += "(";
             for (int i = 0; i < f.nin; i++) s += sfmt("%s%s=%s", i ? "," : "", kIn[i], val_text(f.in[i].pool[e.val[i]]).c_str());
             for (int i = 0; i < f.nout; i++) s += f.okind[i] ? sfmt(",%s:VOut", kOut[i]) : sfmt(",%s:out%zu%s", kOut[i], f.osz[i], e.unmod[i] ? "u" : "");
@@ -796,6 +814,7 @@ void declare_expectations(MockSupport* const sc[3], Case& cs) {
         if (e.dead) sc[e.scope]->disable();          // everything declared now is dropped
         if (e.how == 2) { sc[e.scope]->expectNoCall(kFunc[e.func]); continue; }
         MockExpectedCall& x = e.how == 0 ? sc[e.scope]->expectOneCall(kFunc[e.func]) : sc[e.scope]->expectNCalls((unsigned)e.count, kFunc[e.func]);
+        if (e.bare) { if (e.hasRet) expect_return(x, f.ret, (int)i); continue; }
         for (int k = 0; k < f.nin; k++) expect_param(x, kIn[k], f.in[k].pool[e.val[k]]);
         for (int k = 0; k < f.nout; k++) {
             if (f.okind[k]) x.withOutputParameterOfTypeReturning("VOut", kOut[k], &e.outv[k]);
@@ -860,6 +879,7 @@ bool note_features(const Case& cs) {
     bool sc[3] = {false, false, false}, fio = false, fobj = false, fout = false, fret = false, nocall = false, multi = false, sameclass = false, dead = false, mixed = false, vout = false;
     for (size_t i = 0; i < cs.ex.size(); i++) { auto& e = cs.ex[i]; sc[e.scope] = true; const FuncSpec& f = cs.fs[e.func];
         if (f.ignoreOther) fio = true; if (f.objects) fobj = true; if (f.nout) fout = true; if (e.hasRet) { fret = true; verif::cls((std::string("rettype:") + kRetName[f.ret]).c_str()); }
+        if (e.bare) verif::cls("feature:bare-expectation-on-a-function-with-parameters");
         if (e.count == 0) nocall = true; if (e.count > 1) multi = true; if (e.dead) dead = true;
         for (int k = 0; k < f.nout; k++) if (f.okind[k]) vout = true;
         if (e.how != 2) for (int k = 0; k < f.nin; k++) { verif::cls((std::string("paramtype:") + kTypeName[f.in[k].te]).c_str()); if (f.in[k].te != f.in[k].ta) mixed = true; }
@@ -1027,7 +1047,7 @@ int run_case(Reader& r, bool& nontrivial, std::string& desc) {
             for (size_t si = 0; si < c.steps.size(); si++) {
                 const Step& s = c.steps[si]; if (s.kind != S_OUT) continue;
                 std::vector<uint8_t> want(24, 0xEE); int wantobj = (int)0xEEEEEEEE;
-                if (e) { int oi = m.out_index(cs.fs[e->func], s.name);
+                if (e && !e->bare) { int oi = m.out_index(cs.fs[e->func], s.name);
                     if (oi >= 0 && s.okind) { wantobj = e->outv[oi].content; verif::cls("checked:output-custom-type"); }
                     else if (oi >= 0 && !e->unmod[oi]) { std::copy(e->out[oi].begin(), e->out[oi].end(), want.begin()); verif::cls("checked:output-bytes"); } }
                 if (memcmp(obuf[si].bytes, want.data(), 24) != 0 || obuf[si].obj.content != wantobj) {
